@@ -1,4 +1,6 @@
 (* C09 driver.
+   txw <cfg> <table> <ops>    -> bytes accepted by the stream, length of every slice handed to it, sticky
+                             error and per-message results of the byte-level model (cw_run_tbl WCode)
    tx|txd <faults> <ops>      -> wire bytes and per-message results of the extracted transport model
                              (variant VFixed: the one theorem torn_write_stops_stream is about)
    fault <scenario> ...   -> "clean": by lock_discipline / tasks_balanced / torn_write_stops_stream
@@ -20,6 +22,23 @@ let parse_op s = match String.split_on_char ':' s with
     ((match c with "1" -> CDone | "2" -> CCancel1 | _ -> CLive), List.map bytes_of_hex (split '+' bufs))
   | _ -> failwith "op"
 
+let parse_wtable s =
+  if s = "-" then [] else
+  List.map (fun p -> match split ':' p with
+    | [i; k; n] ->
+      let n = nat_of_int (min (int_of_string n) 100000) in
+      (nat_of_int (int_of_string i), (match k with "t" -> SoTmo n | "f" -> SoFail n | _ -> failwith "kind"))
+    | _ -> failwith "wtable") (split ',' s)
+
+let parse_wop s = match String.split_on_char ':' s with
+  | [m; _l; bufs] ->
+    let mode = match m.[0] with
+      | 'l' -> MLive | 'd' -> MDone | 't' -> MDeadline
+      | 'c' -> MCancelAt (nat_of_int (int_of_string (String.sub m 1 (String.length m - 1))))
+      | _ -> failwith "mode" in
+    (mode, List.map bytes_of_hex (split '+' bufs))
+  | _ -> failwith "wop"
+
 let show_res = function SOk -> "ok" | SErr -> "err" | SNmErr -> "nm"
 
 let () = iter_lines (fun line ->
@@ -28,6 +47,14 @@ let () = iter_lines (fun line ->
     let ops = match rest with [] -> [] | o :: _ -> List.map parse_op (split ';' o) in
     let (wire, rs) = run_tbl VFixed (parse_faults f) ops in
     print_endline (hex_of_bytes wire ^ " " ^ String.concat "," (List.map show_res rs))
+  | "txw" :: cfg :: tbl :: ops :: _ when String.length cfg = 2 ->
+    (try
+      let (((wire, log), broken), rs) =
+        cw_run_tbl WCode (cfg.[0] = '1') (cfg.[1] = '1') (parse_wtable tbl) (List.map parse_wop (split ';' ops)) in
+      let calls = if log = [] then "-" else String.concat "," (List.map (fun n -> string_of_int (int_of_nat n)) log) in
+      print_endline ("w=" ^ hex_of_bytes wire ^ " calls=" ^ calls ^ " broken=" ^ (if broken then "1" else "0")
+                     ^ " res=" ^ String.concat "," (List.map show_res rs))
+    with Failure _ | Invalid_argument _ -> print_endline "bad-case")
   | "fault" :: _ -> print_endline "clean"
   | [] -> ()
   | _ -> print_endline "bad-case")
